@@ -246,6 +246,31 @@ def _post_apply(snap, a, k, res, exc):
                                             f"(which it clones before rewriting) has different links / parent pointers afterwards"}))
     key_case = (label, tag, snap["before"], snap["index"])
     if "structure" in CHECKS:
+        # the caller reads the rewritten tree through the library's own root query
+        # (`change.result.get_root()`): it is the parentless node the links lead to, for the
+        # result and for the outermost leaves of the tree alike (whatever was asked before)
+        rec.arm("root-query:after-apply")
+        probes = [result]
+        n = after_root
+        while n.left is not None or n.right is not None:
+            n = n.left if n.left is not None else n.right
+        probes.append(n)
+        n = after_root
+        while n.left is not None or n.right is not None:
+            n = n.right if n.right is not None else n.left
+        probes.append(n)
+        for p_ in probes:
+            try:
+                got = p_.get_root()
+            except Exception as e:  # noqa: BLE001
+                got = e
+            if got is not after_root:
+                rec.violation("C07", f"structure/{label}/root-query", "get_root() on the rewritten tree does not answer the node its parent links lead to",
+                              witness_of(snap, {"after": snap["after_text"],
+                                                "summary": f"{label} on node {snap['index']} of '{snap['text']}' -> '{snap['after_text']}': get_root() of "
+                                                           f"'{S.text_of(p_)[:40]}' answers {('a node printing ' + repr(S.text_of(got)[:60])) if hasattr(got, 'parent') else repr(got)[:80]}, "
+                                                           f"not the root of the tree it is in"}))
+                break
         _structure(rec, snap, arm, key_case, changed)
     if "value" in CHECKS or "equation" in CHECKS:
         _values(rec, snap, arm, key_case, changed)
